@@ -34,6 +34,7 @@ class Session:
     self.identifying = False
     self.ident_scope = None
     self.mutate = False
+    self.default_ids = set()   # identities of the probes' own default objects (never mutated)
 
   # ---------------------------------------------------------------- probes
   def identify(self, fn):
@@ -54,6 +55,8 @@ class Session:
     return [] if seen == ['zz_ctx'] else seen
 
   def _mutate(self, v):
+    if id(v) in self.default_ids:
+      return
     if isinstance(v, list):
       for x in v:
         self._mutate(x)
@@ -68,8 +71,8 @@ class Session:
 
   def _rec(self, oid, sel, params, extra, kw):
     if self.identifying:
-      if self.ident_scope is None:
-        self.ident_scope = list(self.gin.current_scope())
+      # the identified function's own body runs last (after its references were evaluated)
+      self.ident_scope = list(self.gin.current_scope())
       return ProbeResult(sel, -1)
     self.ran += 1
     n = self.counts.get(oid, 0)
@@ -103,6 +106,7 @@ class Session:
         params.append(n)
       else:
         g['_d_' + n] = decode(d['v'], self.gin)
+        self.default_ids.add(id(g['_d_' + n]))
         params.append(f'{n}=_d_{n}')
       if not (kind != 'fn' and i == 0):
         names.append(n)
@@ -115,6 +119,7 @@ class Session:
         params.append(n)
       else:
         g['_d_' + n] = decode(d['v'], self.gin)
+        self.default_ids.add(id(g['_d_' + n]))
         params.append(f'{n}=_d_{n}')
       names.append(n)
     if sig['varkw']:
@@ -221,6 +226,10 @@ class Session:
         fn = gin.get_configurable(ent.original) if ent.api == 'register' else ent.returned
         r = fn(*args, **kwargs)
       if ent.kind != 'fn':
+        for sel_, rec_ in reversed(self.log):
+          if sel_ == ent.selector:
+            rec_['params'].insert(0, [op['_selfname'], op['args'][0]])
+            break
         return {'res': [ent.selector, self.counts.get(ent.oid, 1) - 1]}
       return encode(r, gin, self)
     finally:
